@@ -227,13 +227,61 @@ def synthetic_case(draw, lang):
                  u.table.cls[k]['supers'][0][0] == 'i']
         if heirs:
             q = draw(st.sampled_from(heirs))
+    elif which == 'irr' and draw(st.integers(0, 3)) == 0:
+        # a query related to an heir only through declaration-site variance: heir : G<A>, query G<A'> with A' above A
+        # (covariant parameter) or below A (contravariant parameter)
+        cands = []
+        for k in u.order:
+            for sup in u.table.cls[k]['supers']:
+                if sup[0] != 'i' or rm.has_kind(sup, ('v', 'p', 'star')):
+                    continue
+                for j, ((pn, pv, pb), a) in enumerate(zip(u.table.cls[sup[1]]['params'], sup[2])):
+                    if pv == 'inv':
+                        continue
+                    rel = [x for x in u.ground_base() if x != a and (R.sub(a, x) if pv == 'out' else R.sub(x, a))
+                           and not R.is_top(x)]
+                    for x in rel[:3]:
+                        cand = ('i', sup[1], sup[2][:j] + (x,) + sup[2][j + 1:])
+                        if R.wf(cand):
+                            cands.append(cand)
+        if cands:
+            q = draw(st.sampled_from(cands))
+    elif which == 'sub' and draw(st.integers(0, 3)) == 0:
+        # a contravariant use-site projection whose bound has a proper subtype: G<in Bar> with Baz : Bar
+        pairs = [(x, y) for x in u.ground_base() for y in u.ground_base() if x != y and R.sub(y, x) and not R.is_top(x)]
+        gens = [k for k in u.generics() if any(pv == 'inv' and pb is None for pn, pv, pb in u.table.cls[k]['params'])]
+        if pairs and gens:
+            k = draw(st.sampled_from(gens))
+            x, _ = draw(st.sampled_from(pairs))
+            args = []
+            used = False
+            for pn, pv, pb in u.table.cls[k]['params']:
+                if pv == 'inv' and pb is None and not used:
+                    args.append(('p', 'in', x))
+                    used = True
+                else:
+                    args.append(None)
+            if all(a is not None for a in args):
+                cand = ('i', k, tuple(args))
+                if R.wf(cand):
+                    q = cand
+    elif which == 'irr' and draw(st.integers(0, 3)) == 0:
+        # the query is a type variable whose bound is an instantiation (possibly with a use-site projection): the
+        # result must be unrelated to the *bound*
+        b = draw(tg.types(u, R, depth=draw(st.integers(1, 2)), force_generic=True, proj=True, star=False))
+        if b is not None and b[0] == 'i' and R.wf(b):
+            q = ('v', 'Z', b)
     return u, q, extra, which, draw(st.booleans()), draw(st.booleans()), draw(st.integers(0, 10 ** 6))
 
 
 def exec_synthetic(u, q, extra, which, include_self, concrete_only, seed, rec):
     from src import utils
     from src.ir import type_utils as tu
-    types = [u.ir(t) for t in u.ground_base()] + [u.classes[k] for k in u.generics()] + [u.ir(t) for t in extra]
+    if seed % 3 == 0:
+        # the generator's calling convention: classes as declarations (generic ones too), builtins as types
+        types = [ir for _, ir in u.builtins] + [u.decl(k) for k in u.order]
+    else:
+        types = [u.ir(t) for t in u.ground_base()] + [u.classes[k] for k in u.generics()] + [u.ir(t) for t in extra]
     q_ir = u.ir(q)
     utils.random.r = random.Random(seed)
     with rec.recording():
@@ -314,7 +362,7 @@ def run_recorded(spec, col, n_seed, n_tape):
 def run_shard(spec, col):
     quick = col.tier == 'quick'
     if spec['part'] == 'synthetic':
-        run_synthetic(spec, col, 600 if quick else 15000)
+        run_synthetic(spec, col, 1200 if quick else 20000)
     else:
         run_recorded(spec, col, 10 if quick else 300, 30 if quick else 900)
 
